@@ -727,6 +727,8 @@ func writeEvidence(verif, prop, tier string, seed int, w *World, res *checkResul
 		"A-reent: user functions, callbacks and writers do not call back into the same container tree",
 		"A-single: single-threaded use",
 		"A-induction: the step from per-call contracts to whole histories is the usual induction over public calls under the invariant; it is not sent to a solver",
+		"A-imports: a function of a package other than dig creates no *Scope and no *graphHolder, code outside the module creates no object of the module's struct types (facts of Go's import graph, assumed at call sites)",
+		"A-positional-names: a local variable or loop header renamed since the lock was written is matched by position with the name the contract uses (only when the function still has the same number of locals and loops; every such match is listed in the notes below)",
 		"trusted stub contracts (reflect, errors, strings, strconv, fmt, clock) listed in trusted_base",
 	}, notes...)
 	ev := map[string]interface{}{"property_id": prop, "tier": tier, "seed": seed, "level": level, "coverage": cov,
